@@ -1014,7 +1014,7 @@ fn pool_hash(pool: &Pool) -> u64 {
 }
 
 fn gen_plan(rng: &mut Rng, reference: &Reference, tier: Tier, exec_no: u64, big_literals: bool) -> SchedPlan {
-    if big_literals && exec_no % 2 == 1 {
+    if big_literals && (exec_no % 2 == 1 || exec_no >= 1000) {
         // targeted: several threads copying literals of more than 64 KiB at the same time
         // (the literal copy loop is the only multi-pass loop of the reconstruction side that
         // touches the caller's reader and writer)
@@ -1171,7 +1171,7 @@ fn minimise(pool: &Pool, reference: &Reference, plan: &SchedPlan, out: &ExecOutc
         // explicit replay of the recorded schedule must reproduce; if not, report the seeded plan
         return (plan.clone(), execute(pool, reference, plan));
     }
-    let mut budget = 60;
+    let mut budget = 160;
     // 1. truncate the schedule (stay on the current thread afterwards)
     let mut len = best_out.schedule.len();
     while budget > 0 && len > 1 {
@@ -1186,6 +1186,27 @@ fn minimise(pool: &Pool, reference: &Reference, plan: &SchedPlan, out: &ExecOutc
             len = cut;
         } else {
             break;
+        }
+    }
+    // 1b. remove individual context switches (later ones first): "stay on the current thread"
+    let mut i = best_out.schedule.len();
+    while budget > 0 && i > 1 {
+        i -= 1;
+        let sched = best_plan.explicit.clone().unwrap_or_default();
+        if i >= sched.len() || sched[i] == sched[i - 1] {
+            continue;
+        }
+        let mut cand = best_plan.clone();
+        let mut ex = sched.clone();
+        ex[i] = ex[i - 1];
+        cand.explicit = Some(ex);
+        budget -= 1;
+        let o = execute(pool, reference, &cand);
+        if classify(&o).map(|c| c.0) == Some(clause.to_string()) && o.switches < best_out.switches {
+            best_plan = cand;
+            best_plan.explicit = Some(o.schedule.clone());
+            i = i.min(o.schedule.len());
+            best_out = o;
         }
     }
     // 2. drop calls from the end of each script
@@ -1430,7 +1451,10 @@ impl Engine for SchedEngine {
         if big_literals {
             res.bump("probe.pool_with_two_literals_over_64k");
         }
-        for e in 0..nexec {
+        // pools with two literals over 64 KiB get extra, targeted executions (they are cheap:
+        // reconstruction calls only)
+        let extra = if big_literals { 3 * nexec } else { 0 };
+        for e in (0..nexec).chain(1000..1000 + extra) {
             if !res.violations.is_empty() {
                 break;
             }
